@@ -18,7 +18,7 @@ ASSUMPTIONS = [
     "export_c_header writes a text file (formatting of concrete data): not exercised symbolically",
 ]
 BOUNDS = {
-    "quick": "Bloom 2, 11, 13 bits; counting Bloom 2, 3 cells; expanding/rotating 2 sub-filters; count-min family 2x2, 3x2 incl. HeavyHitters/StreamThreshold tables; cuckoo / counting cuckoo 2x1, 2x2 every occupancy; quotient filter with 0..3 stored hashes (8^n quotient choices)",
+    "quick": "Bloom 2, 8, 11, 13, 16 bits; counting Bloom 2, 3 cells; expanding/rotating 2 sub-filters; count-min family 2x2, 3x2 incl. HeavyHitters/StreamThreshold tables; cuckoo / counting cuckoo 2x1, 2x2 every occupancy; quotient filter with 0..3 stored hashes (8^n quotient choices)",
     "thorough": "adds Bloom 63 bits, counting Bloom 6 cells, count-min 3x3",
     "outside": "larger geometries; export_c_header",
 }
@@ -124,6 +124,9 @@ def cuckoo(ctx, cfg):
     from . import c03
     t = c03.build(ctx, cfg)
     f = t.f
+    if cfg.get("loaded"):       # the same table after export -> frombytes (the loader stores buckets differently)
+        f = type(f).frombytes(env.export_bytes(ctx, f), hash_function=t.hf)
+        t.f = f
     before, tot, blob = c03.stored(t), f.elements_added, env.export_bytes(ctx, f)
     c03.new_key(t)
     f.check("new"), ("new" in f), f.__bytes__(), f.load_factor(), str(f)
@@ -134,6 +137,7 @@ def cuckoo(ctx, cfg):
     ctx.check(len(before) == len(after) and ctx.fork(ctx.and_([ctx.and_(x[0] == y[0], ctx.eq(x[1], y[1]), ctx.eq(x[2], y[2])) for x, y in zip(before, after)] +
                                                                [ctx.eq(tot, f.elements_added)])), "cuckoo-queries-unchanged")
     ctx.check(env.blob_eq(ctx, blob, env.export_bytes(ctx, f)), "cuckoo-queries-export-unchanged")
+    ctx.check(all(len(b) <= f.bucket_size for b in f.buckets), "cuckoo-queries-unchanged")
 
 
 def qf(ctx, cfg):
@@ -165,7 +169,7 @@ def jobs(tier):
     js = []
     o = {"witnesses": 1}
     oc = {"index_concretize_limit": 8, "witnesses": 1}
-    for est, fpr in [(1, .5), (3, .2), (5, .3)] + ([(10, .05)] if tier == "thorough" else []):
+    for est, fpr in [(1, .5), (3, .28), (3, .2), (5, .3), (5, .22)] + ([(10, .05)] if tier == "thorough" else []):
         js.append({"h": "c19.bloom", "cfg": {"kind": "bloom", "est": est, "fpr": fpr, "str": est == 1}, "opts": dict(o, cost=est)})
     for est, fpr in [(1, .5), (1, .3)] + ([(2, .3)] if tier == "thorough" else []):
         js.append({"h": "c19.bloom", "cfg": {"kind": "cbf", "est": est, "fpr": fpr, "str": est == 1 and fpr == .5}, "opts": dict(o, cost=est * 5)})
@@ -178,8 +182,9 @@ def jobs(tier):
     for counting in (False, True):
         for cap, bsz in [(2, 1), (2, 2)]:
             for occ in itertools.product(range(bsz + 1), repeat=cap):
-                js.append({"h": "c19.cuckoo", "cfg": {"cap": cap, "bsz": bsz, "swaps": 2, "auto": True, "occ": list(occ), "counting": counting},
-                           "opts": dict(oc, cost=cap * bsz)})
+                for loaded in (False, True):
+                    js.append({"h": "c19.cuckoo", "cfg": {"cap": cap, "bsz": bsz, "swaps": 2, "auto": True, "occ": list(occ), "counting": counting,
+                                                           "loaded": loaded}, "opts": dict(oc, cost=cap * bsz)})
     for n in (0, 1, 2, 3):
         for qs in itertools.product(range(8), repeat=n):
             if n == 3 and not (qs[0] <= qs[1] <= qs[2]):
